@@ -328,10 +328,14 @@ def make_configs(tree):
         Config("env-empty-root", ab, True, env_root=""),
         Config("env-empty-index", ab, True, env_index=""),
         Config("env-yes-index", ab + "/", True, env_index="yes"),
+        # document_index never assigned: the default is off
+        Config("abs-index-untouched", ab, False),
+        Config("rel-index-untouched-envon", rel, False, env_index="ON"),
     ]
     for cfg in cfgs:
-        app = new_app(document_root=cfg.attr_root,
-                      document_index=cfg.attr_index, debug=cfg.debug)
+        app = new_app(document_root=cfg.attr_root, debug=cfg.debug)
+        if "untouched" not in cfg.name:
+            app.document_index = cfg.attr_index
 
         def capture(req, seen=cfg.seen):
             seen["path"] = req.path
